@@ -3,7 +3,7 @@
    check_case: the model computes what the implementation did.
    spec_case : what the implementation did satisfies the property, judged WITHOUT the automata:
                from the packets the clients sent and the bytes the handlers wrote alone. *)
-From Sdns Require Export Common.Base Gen.C10 C10.Model C10.ModelStream C10.ModelShare C10.ModelPool C10.ModelChains.
+From Sdns Require Export Common.Base Gen.C10 C10.Model C10.ModelStream C10.ModelShare C10.ModelPool C10.ModelChains C10.ModelEdns.
 Open Scope N_scope.
 
 (* byte strings travel run-length encoded: (count, byte) *)
@@ -40,6 +40,16 @@ Inductive connrec :=
    on the chain c that NewChain handed out / r writes / end (Finish) / end (PutChain) *)
 Inductive kopN := KBW (r j : N) | KBP (r c : N) | KW (r : N) (bs : rle) | KEW (r : N) | KEP (r : N).
 
+(* the edns writer wrapper of one job slot across requests: every field of the wrapper as the
+   last handler saw it (mid) and as the serve left it (post); request facts; path taken
+   (0 nothing written, 1 WriteMsg, 2 WriteWire); what the reply's OPT showed of the client *)
+Inductive eviewN :=
+  EV (opt : bool) (size : N) (do : bool) (cookie : list N) (nsid noedns noad : bool) (udpsize : N)
+     (raw : list N) (hasraw keepalive pooled : bool).
+Inductive eserveN :=
+  ES (qopt qdo : bool) (qcookie : list N) (qnsid qka qcd qad qtcp : bool) (qsize : N) (path : N)
+     (mid : eviewN) (rep : option (bool * bool * list N * bool * bool)) (post : eviewN).
+
 Inductive case :=
   (* sequential operations on the real udpEngine pieces: per client address the datagrams it
      received in order; the slabs at the end; did anything panic *)
@@ -55,6 +65,13 @@ Inductive case :=
 | CaseWriter (ops : list (option N * rle)) (obs : list (option (N * rle)))
   (* connections served one after the other by one engine (pooled tcpStream and slabs) *)
 | CaseConnSeq (conns : list connrec)
+  (* the chain's base writer right after Chain.Reset / ResetWire on a transport (id, stream?, last
+     octet of the client address), whatever the chain served before: observed rcode, stream?,
+     address octet, internal, written, directPack, msg != nil, wire != nil *)
+| CaseWReset (tid : N) (tcp : bool) (ip : N) (obs : N * bool * N * bool * bool * bool * bool * bool)
+  (* consecutive wire-born requests of different clients through the real EDNS.serveWire on ONE
+     job-owned wrapper slot *)
+| CaseEdns (serves : list eserveN)
   (* interleaved requests on the real Pipeline / Chain objects (slab-owned chains 0..nslabs-1,
      pooled chains numbered as NewChain first hands them out); observed per operation: which
      transport received which bytes (a request's transport is its number) *)
@@ -247,6 +264,44 @@ Fixpoint chains_spec (nslabs : N) (users : list (N * N)) (ops : list kopN) (obs 
   | _, _ => false
   end.
 
+Definition eview_of (s : eslot) : eviewN :=
+  EV (e_opt s) (e_size s) (e_do s) (e_cookie s) (e_nsid s) (e_noedns s) (e_noad s) (e_udpsize s)
+     (e_cookieraw s) (e_hasraw s) (e_keepalive s) (e_pooled s).
+Definition eview_eqb (a b : eviewN) : bool :=
+  match a, b with
+  | EV o1 s1 d1 c1 n1 ne1 na1 u1 r1 h1 k1 p1, EV o2 s2 d2 c2 n2 ne2 na2 u2 r2 h2 k2 p2 =>
+      Bool.eqb o1 o2 && (s1 =? s2) && Bool.eqb d1 d2 && bytes_eqb c1 c2 && Bool.eqb n1 n2 && Bool.eqb ne1 ne2 &&
+      Bool.eqb na1 na2 && (u1 =? u2) && bytes_eqb r1 r2 && Bool.eqb h1 h2 && Bool.eqb k1 k2 && Bool.eqb p1 p2
+  end.
+Definition eobs_eqb (a : eobs) (b : bool * bool * list N * bool * bool) : bool :=
+  let '(o, d, c, n, k) := b in
+  Bool.eqb (o_opt a) o && Bool.eqb (o_do a) d && bytes_eqb (o_cookie a) c && Bool.eqb (o_nsid a) n && Bool.eqb (o_keepalive a) k.
+Definition ereq_of (e : eserveN) : ereq :=
+  match e with ES qopt qdo qc qn qk qcd qad qtcp qs _ _ _ _ => mkEreq qopt qdo qc qn qk qcd qad qtcp qs end.
+Definition epath_of (n : N) : epath := if n =? 1 then PMsg else if n =? 2 then PWire else PNone.
+Fixpoint run_edns (s : eslot) (l : list eserveN) : bool :=
+  match l with
+  | [] => true
+  | (ES _ _ _ _ _ _ _ _ _ path mid rep post) as e :: r =>
+      let s1 := e_bind s (ereq_of e) in
+      let '(s2, o) := e_reply s1 (epath_of path) in
+      let s3 := e_release s2 in
+      eview_eqb (eview_of s1) mid &&
+      match o, rep with
+      | None, None => true
+      | Some a, Some b => eobs_eqb a b
+      | _, _ => false
+      end &&
+      eview_eqb (eview_of s3) post && run_edns s3 r
+  end.
+
+Definition wview (w : wfull) : N * bool * N * bool * bool * bool * bool * bool :=
+  (Z.to_N (wf_rcode w), wf_tcp w, wf_ip w, wf_internal w, negb (wf_size w =? writer_unwritten_size)%Z, wf_direct w, wf_hasmsg w, wf_haswire w).
+Definition wview_eqb (a b : N * bool * N * bool * bool * bool * bool * bool) : bool :=
+  let '(r1, t1, i1, n1, w1, d1, m1, x1) := a in
+  let '(r2, t2, i2, n2, w2, d2, m2, x2) := b in
+  (r1 =? r2) && Bool.eqb t1 t2 && (i1 =? i2) && Bool.eqb n1 n2 && Bool.eqb w1 w2 && Bool.eqb d1 d2 && Bool.eqb m1 m2 && Bool.eqb x1 x2.
+
 (* ------------------------------------------------------------------ check_case *)
 Definition check_case (c : case) : bool :=
   match c with
@@ -272,6 +327,10 @@ Definition check_case (c : case) : bool :=
       list_eqb (list_eqb bytes_eqb)
                (conn_seq (N.to_nat tcp_drain_size) (N.to_nat tcp_fill_size) (s_init [] []) (map connio_of conns))
                (map connrec_writes conns)
+  | CaseWReset tid tcp ip obs =>
+      (* the previous state is irrelevant (writer_reset_forgets): any stand-in will do *)
+      wview_eqb (wview (wf_reset (mkWfull 77 true true 300 3 (negb tcp) 9 true true) tid tcp ip)) obs
+  | CaseEdns serves => run_edns eslot_zero serves
   | CaseChains nslabs ops obs => run_kops (k_init (N.to_nat nslabs)) ops obs
   | CaseWriter ops obs =>
       let wops := map (fun o => match fst o with Some t => WReset t | None => WWrite (unrle (snd o)) end) ops in
@@ -318,6 +377,16 @@ Definition spec_case (c : case) : bool :=
          same engine: nothing of an earlier connection's replies shows up in a later one *)
       forallb (fun c => match c with CR _ frames junk scripts _ budgets arms writes =>
                           conn_spec frames junk scripts budgets arms writes end) conns
+  | CaseWReset tid tcp ip obs =>
+      (* the writer shows the NEW transport's facts and no reply state at all *)
+      wview_eqb (0, tcp, ip, false, false, false, false, false) obs
+  | CaseEdns serves =>
+      (* whatever was served before on that slot: what a reply's OPT shows of the client (OPT at
+         all, DO, the client half of COOKIE, NSID, keepalive) is what THIS request carried *)
+      forallb (fun e => match e with
+                        | ES _ _ _ _ _ _ _ _ _ _ _ (Some b) _ => eobs_eqb (own_facts (ereq_of e)) b
+                        | _ => true
+                        end) serves
   | CaseChains nslabs ops obs => chains_spec nslabs [] ops obs
   | CaseWriter ops obs =>
       (* every emission goes to the transport of the latest Reset before it, carries the bytes
